@@ -40,6 +40,7 @@ class Source(Stream):
     def __init__(self, start=False, **kwargs):
         self.stopped = True
         self._run_live = False
+        self._restart = False
         super().__init__(ensure_io_loop=True, **kwargs)
         self.started = False
         if start:
@@ -64,13 +65,22 @@ class Source(Stream):
             if not self._run_live:
                 self._run_live = True
                 self.loop.add_callback(self._run_once)
+            else:
+                # the previous invocation is still accounted for: if it has in fact
+                # left its loop already (a ``run()`` returning a Future is only seen
+                # to be finished one loop iteration later), it is invoked again
+                self._restart = True
 
     async def _run_once(self):
         """Invoke ``run()``, keeping track of whether it is still in progress"""
         try:
-            result = self.run()
-            if isawaitable(result):
-                await result
+            while True:
+                self._restart = False
+                result = self.run()
+                if isawaitable(result):
+                    await result
+                if self.stopped or not self._restart:
+                    break
         finally:
             self._run_live = False
 
